@@ -15,7 +15,7 @@ ASAN_ENV = dict(os.environ, ASAN_OPTIONS='halt_on_error=0:suppress_equal_pcs=0:d
 MIN_CAP = 24
 KINDS = ['valid-known', 'valid-known', 'valid-unknown', 'valid-unknown', 'valid-empty', 'known-type-random-payload', 'corrupt-payload', 'corrupt-crc',
          'corrupt-header', 'truncated', 'false-sync-implausible', 'false-sync-plausible', 'nested', 'dot-run', 'dot1-fragment', 'sync-run-then-1',
-         'reserved-nonzero', 'psize-overflow', 'psize-over-capacity', 'junk', 'rtcm-frame']
+         'reserved-nonzero', 'psize-overflow', 'psize-over-capacity', 'junk', 'rtcm-frame', 'swallow-many', 'junk-then-sync', 'valid-large']
 
 
 def rb(r, n):
@@ -71,11 +71,20 @@ def gen_token(r, pool, kinds=None):
     if k == 'reserved-nonzero':
         return k, cm.fe_message(rb(r, r.randint(0, 20)), mtype=60005, reserved=r.choice([1, 256, 0x312E, 0xFFFF]))
     if k == 'psize-overflow':
-        return k, cm.fe_message(rb(r, r.randint(0, 20)), mtype=60006, psize=r.choice([0xFFFFFFFF, 0xFFFFFFE8, 0xFFFFFFE7, 0xFFFFFFF0, 0x7FFFFFFF, 0x7FFFFFE8, 0x80000000]))
+        return k, cm.fe_message(rb(r, r.randint(0, 20)), mtype=60006, psize=r.choice([0xFFFFFFE7 + r.randrange(25), 0xFFFFFFFF, 0xFFFFFFE8, 0xFFFFFFE7, 0x7FFFFFFF, 0x7FFFFFE8, 0x7FFFFFE7, 0x80000000]))
     if k == 'psize-over-capacity':
         return k, cm.fe_message(rb(r, r.randint(0, 40)), mtype=60007, psize=r.choice([1000, 1001, 1024, 4096, 100000]))
     if k == 'rtcm-frame':
         return k, cm.rtcm_frame(rb(r, r.randint(0, 30)))
+    if k == 'swallow-many':   # one failing candidate whose payload holds several complete messages back to back: all recovered by one Resync()
+        inner = b''.join(cm.fe_message(rb(r, r.choice([0, 0, 1, 5, 17])), mtype=60010 + j, seq=j) for j in range(r.randint(3, 6)))
+        sep = r.choice([b'', b'', b'.', b'..', rb(r, 2)])
+        return k, cm.fe_message(sep + inner + r.choice([b'', b'.', b'.1']), mtype=60009, crc=r.getrandbits(32))
+    if k == 'junk-then-sync':  # >= 24 bytes without a sync pattern, then a stray preamble (meant to end a chunk)
+        j = bytes(b for b in rb(r, r.randint(24, 40)) if b != 0x2E) or b'x' * 24
+        return k, j + r.choice([b'.', b'.1', b'..', b'.1\x00'])
+    if k == 'valid-large':
+        return k, cm.fe_message(rb(r, r.choice([1000, 1024, 1100]) if r.random() < 0.93 else r.choice([4072, 4096, 5000])), mtype=60011, seq=r.randrange(1 << 16)) if r.random() < 0.3 else cm.fe_message(rb(r, r.randint(100, 300)), mtype=60011)
     return k, rb(r, r.randint(1, 30))
 
 
@@ -91,23 +100,23 @@ def gen_case(r, pool, thorough):
            '64': 64, '1024': 1024, 'huge': len(s) + r.randint(1, 64)}[capc]
     mode = r.choice(['U', 'U', 'M'])
     align = r.randrange(4) if mode == 'U' else 0
-    ch = r.choice(['single', 'bytewise', 'split', 'random', 'random'])
+    ch = r.choice(['single', 'bytewise', 'split', 'random', 'random', 'token-ends'])
     if ch == 'single':
         cuts = []
     elif ch == 'bytewise':
         cuts = list(range(1, len(s)))
     elif ch == 'split':
         cuts = [r.randrange(0, len(s) + 1)]
+    elif ch == 'token-ends':
+        cuts = cm.token_cuts(tokens, r)
     else:
         cuts = cm.cuts_of(cm.chunk_random(s, r))
     nchunks = len(cuts) + 1
     resets = [r.randrange(nchunks) for _ in range(r.choice([0, 0, 0, 1, 2]))]
-    setbufs = []
-    if r.random() < 0.08:
-        m2 = r.choice(['U', 'M'])
-        setbufs.append((r.randrange(nchunks), (m2, r.choice([0, 23, 24, 25, 27, 64, 1024]), r.randrange(4) if m2 == 'U' else 0)))
+    setbufs = cm.gen_setbufs(r, nchunks, mode, cap, align, [24, 25, 27, 28, 64, 200, 1024, max(sizes), max(sizes) + 3], MIN_CAP) if r.random() < 0.25 else []
+    opts = r.choice([0, 1, 2, 3]) | (4 if r.random() < 0.03 else 0)
     return {'mode': mode, 'cap': cap, 'align': align, 'tokens': tokens, 'kinds': kinds, 'cuts': cuts, 'resets': resets,
-            'setbufs': setbufs, 'chunking': ch, 'capclass': capc}
+            'setbufs': setbufs, 'chunking': ch, 'capclass': capc, 'opts': opts}
 
 
 def systematic_cases(r, pool, thorough):
@@ -145,12 +154,53 @@ def systematic_cases(r, pool, thorough):
     # clamp: the framer is told 2^31 + 5 / 2^33 bytes, the block is only as large as needed
     for claimed in (2 ** 31 + 5, 2 ** 33):
         out.append(mk('U', '%d/%d' % (claimed, tot + 8), 1, s, ['clamp'], cuts=[7], capclass='clamp', no_model=True))
+    # a message LARGER than / exactly as large as the usable capacity, whole and split at every offset, followed by one that fits
+    big = cm.fe_message(rb(r, 16), mtype=60400, seq=1)            # 40 bytes
+    small = cm.fe_message(b'\x07', mtype=60401, seq=2)            # 25 bytes
+    for al in (0, 1, 3):
+        for dc in (-1, 0):
+            cap = len(big) + dc + (4 - al) % 4
+            for k in range(0, len(big) + len(small) + 1):
+                out.append(mk('U', cap, al, [big, small], ['valid-unknown', 'valid-unknown'], cuts=[k] if k else [], capclass='exact'))
+    # zero-payload message as the last bytes of a call and of the stream, every split
+    for pre in (b'', small, rb(r, 5) + b'.'):
+        st = [pre, z] if pre else [z]
+        n = sum(len(x) for x in st)
+        for k in range(0, n + 1):
+            out.append(mk('M', 24, 0, st, ['junk', 'valid-empty'], cuts=[k] if 0 < k < n else [], capclass='header'))
+            out.append(mk('U', 64, k % 4, st + [z], ['junk', 'valid-empty', 'valid-empty'], cuts=[k, n], capclass='64'))
+    # >= 24 junk bytes, then a stray preamble as the last / second-to-last byte of a call, then a real message
+    junk = bytes(b for b in rb(r, 40) if b != 0x2E)[:26].ljust(26, b'j')
+    for stray in (b'.', b'.1', b'..', b'.1\x00\x00'):
+        st = [junk, stray, inner]
+        n0 = len(junk) + len(stray)
+        for k in (n0 - 2, n0 - 1, n0, n0 + 1):
+            for capx in (64, 28):
+                out.append(mk('U', capx, 0, st, ['junk', 'dot1-fragment', 'valid-unknown'], cuts=[k], capclass='64'))
+    # one failing candidate that swallows 4 complete messages: all must come out of ONE Resync pass, any split
+    four = [cm.fe_message(rb(r, j), mtype=60500 + j, seq=j) for j in (0, 3, 0, 9)]
+    sw = cm.fe_message(b''.join(four), mtype=60499, crc=7)
+    for k in (range(0, len(sw) + 2) if thorough else range(0, len(sw) + 2, 5)):
+        out.append(mk('U', 256, 2, [sw, small], ['swallow-many', 'valid-unknown'], cuts=[k] if k else [], capclass='1024'))
+    # every payload_size that makes 24 + payload_size wrap around 2^32 (and the last ones that do not)
+    for ps in range(0xFFFFFFE0, 0x100000000):
+        out.append(mk('U', 64, 0, [cm.fe_message(b'', mtype=60600, psize=ps, crc=3), small], ['psize-overflow', 'valid-unknown'], capclass='64'))
+    # large messages and capacities (> 64 KiB, 16384 / 16383): implementation against the SPEC (the list-based model is too slow there)
+    for n, capx in ([(70000, 70100), (70000, 65536), (16384 - 24, 16384), (16384 - 24, 16383)] if thorough else [(70000, 70100), (16384 - 24, 16383)]):
+        m = cm.fe_message(rb(r, n), mtype=60700, seq=n & 0xFFFF)
+        out.append(mk('U', capx, 1, [b'.1', m, small], ['dot1-fragment', 'valid-huge', 'valid-unknown'], cuts=[1, 30000 % len(m), len(m) - 1], capclass='huge', no_model=True))
+        out.append(mk('M', capx, 0, [m, small], ['valid-huge', 'valid-unknown'], capclass='huge', no_model=True))
     return out
 
 
 def lines_of(case):
+    """(implementation line, SPEC line); model_line(case) is the implementation line without harness-only options"""
     ops = cm.case_ops(case)
-    return cm.make_line(case['mode'], case['cap'], case['align'], ops), cm.spec_line(case['mode'], case['cap'], case['align'], ops)
+    return cm.make_line(case['mode'], case['cap'], case['align'], ops, opts=case.get('opts', 0)), cm.spec_line(case['mode'], case['cap'], case['align'], ops)
+
+
+def model_line(case):
+    return cm.make_line(case['mode'], case['cap'], case['align'], cm.case_ops(case), for_model=True)
 
 
 def run_impl(exe, lines):
@@ -254,6 +304,13 @@ def check_results(ctx, results, model, impl):
             ctx.violation(sig_of(c, 'crash'), 'harness process died: ' + i, {'line': line, 'impl': i})
             continue
         isegs, ssegs = cm.parse_out(i), cm.parse_out(s)
+        ctx.count('options:%d' % c.get('opts', 0))
+        if c.get('opts', 0) & 4:
+            # the callback calls Reset() re-entrantly: behaviour is not specified by the property, memory safety is
+            bad = [k for k, a in enumerate(isegs) if a.get('flag') in ('ASAN', 'INMOD')]
+            if bad:
+                ctx.violation(sig_of(c, 'sanitizer-report-with-reentrant-reset'), 'sanitizer report when the callback calls Reset()', {'line': line, 'impl': i})
+            continue
         ncb = sum(len(x.get('cbs', [])) for x in ssegs)
         ctx.count('messages-dispatched', ncb)
         if ncb == 0:
@@ -271,8 +328,8 @@ def check_results(ctx, results, model, impl):
             sc = cm.shrink(c, fails) if len(ctx.violations) < 3 else c
             a, b = lines_of(sc)
             o = vf.run_lines(impl, [a], env=ASAN_ENV)[1]; o2 = vf.run_lines(model, [b])[1]
-            om = vf.run_lines(model, [a])[1] if not sc.get('no_model') else ['-']
-            ol = vf.run_lines(model, ['LEGACY ' + a])[1] if not sc.get('no_model') else ['-']
+            om = vf.run_lines(model, [model_line(sc)])[1] if not sc.get('no_model') else ['-']
+            ol = vf.run_lines(model, ['LEGACY ' + model_line(sc)])[1] if not sc.get('no_model') else ['-']
             ctx.violation(sig_of(c, d[1]), 'FusionEngine framer vs left-to-right scan: %s at operation %d (capacity %s, %s buffer, alignment %d, input class %s)'
                           % (d[1], d[0], c['cap'], c['mode'], c['align'], trigger_of(c)),
                           {'line': a, 'spec_line': b, 'stream_hex': b''.join(sc['tokens']).hex(), 'impl': o[0] if o else None, 'spec': o2[0] if o2 else None,
@@ -342,11 +399,11 @@ def run(ctx):
             c['tokens'] = [bytes.fromhex(t) for t in c['tokens']]
             cases.append(c)
     cases += systematic_cases(r, pool, ctx.thorough)
-    cases += [gen_case(r, pool, ctx.thorough) for _ in range(150000 if ctx.thorough else 20000)]
+    cases += [gen_case(r, pool, ctx.thorough) for _ in range(150000 if ctx.thorough else 15000)]
     il, sl = zip(*[lines_of(c) for c in cases])
     ctx.log('%d cases generated' % len(cases)); io = run_impl(impl, list(il)); ctx.log('impl done')
     so = vf.run_parallel(model, list(sl)); ctx.log('spec done')
-    mres = iter(vf.run_parallel(model, [l for l, c in zip(il, cases) if not c.get('no_model')]))
+    mres = iter(vf.run_parallel(model, [model_line(c) for c in cases if not c.get('no_model')]))
     results = [(c, i, s, None if c.get('no_model') else next(mres), l) for c, i, s, l in zip(cases, io, so, il)]
     ctx.log('model done'); adv = check_results(ctx, results, model, impl); ctx.log('compared')
     if adv:
@@ -368,7 +425,7 @@ def run(ctx):
                             'x capacities (0/10/23, 24..28, message size -1/0/+1/+2/+3, 64, 1024, > stream, told 2^31+5 / 2^33) x user(4 alignments, buffer at the end of an '
                             'exact-size heap block)/managed buffers x Reset() and SetBuffer() at random chunk boundaries; systematic part: payload sizes x capacity size-1/size/size+1 x 4 '
                             'alignments, capacities 20..29 x 4 alignments, all single splits of a nested-candidate stream, SYNC0 runs of length %s; '
-                            'a subset is also compared with the Python decoder. A case is distinct by its full input line.' % ('1..60' if ctx.thorough else '1,2,21..26,40'))
+                            'a subset is also compared with the Python decoder. Added after the seeded-change audit: SetBuffer() between chunks on the same memory / smaller / larger / user<->managed / refused with parser state carried over (25 %% of histories, 1-3 calls), chunk boundaries at and +-1/+-2 around token ends, candidates swallowing 3-6 complete messages, >= 24 junk bytes then a stray preamble ending a call, messages larger than / equal to the capacity split at every offset, empty messages ending a call / the stream, every payload_size in 0xFFFFFFE0..0xFFFFFFFF (C07), messages and capacities > 64 KiB and 16384/16383 (implementation vs SPEC), WarnOnError on/off and std::function vs raw callback as case dimensions, callbacks that call Reset() re-entrantly (memory safety only), caller chunks at 4 start alignments ending exactly at the end of an exact-size heap block and compared bit-for-bit after the call, framer buffers pre-filled with sync-byte sentinels, callback pointers required to lie inside a buffer handed to the framer with payload == header + 24. A case is distinct by its full input line.' % ('1..60' if ctx.thorough else '1,2,21..26,40'))
     ctx.coverage['exhaustive'] = False
     ctx.trusted_base += ['Coq 8.16.1 kernel + vm_compute', 'extraction (ExtrOcamlBasic only), ocaml/conv.ml + c07_driver.ml',
                          'translators/gen_fe.py, gen_c07.py (constants derived by compiling probes against the working tree and observing the framer: offsetof, CRC start, usable capacity table; harness/cpp/c07_probe.cc; the harness static_asserts the offsets)',
@@ -385,8 +442,9 @@ def replay(ctx, rec):
     model, impl = build(ctx)
     line = case['line']
     print('IMPL  ', vf.run_lines(impl, [line], env=ASAN_ENV)[1])
+    ml = ' '.join(('BU' + t[2:]) if t.startswith('BS') else t for t in line.split() if not t.startswith('O'))
     if '/' not in line.split()[1]:
-        print('MODEL ', vf.run_lines(model, [line])[1])
-        print('LEGACY', vf.run_lines(model, ['LEGACY ' + line])[1])
-    print('SPEC  ', vf.run_lines(model, [case.get('spec_line') or 'SPEC ' + line])[1])
+        print('MODEL ', vf.run_lines(model, [ml])[1])
+        print('LEGACY', vf.run_lines(model, ['LEGACY ' + ml])[1])
+    print('SPEC  ', vf.run_lines(model, [case.get('spec_line') or 'SPEC ' + ml])[1])
     return 0
